@@ -29,8 +29,9 @@ def expected(kind, ext, region, sz, n, parses=True):
 
 def scenarios(rnd, quick):
     out = []
-    slot, blk, ns = 17408 + 2048, 256, 4
-    def add(sz, n, mutate, kind=K_FW, ext=EXT["co"], tag=""):
+    slot0, blk, ns = 17408 + 2048, 256, 4
+    def add(sz, n, mutate, kind=K_FW, ext=EXT["co"], tag="", slot=None):
+        slot = slot or slot0
         total = n * sz
         img = bytearray(ts004.make_image(rnd, n, sz))
         room = slot - session.DRO
@@ -74,6 +75,11 @@ def scenarios(rnd, quick):
             def one(region, total, pos=pos):
                 region[pos // 8] ^= 1 << (pos % 8); return " flip bit %d" % pos
             add(sz, n, one, tag="sweep")
+    # the largest fragment counts a header can announce (16384 = MAX_SEGMENTS is legal)
+    big = 17408 + 16384 + 256
+    for sz, n in [(1, 16384), (1, 16383), (2, 8192)]:
+        add(sz, n, None, tag="max-count", slot=big)
+    add(1, 16384, flip_bit, tag="max-count", slot=big)
     for kind in (K_FW, K_PAR):
         for e in EXT.values():
             add(40, 5, None, kind=kind, ext=e, tag="gate")
